@@ -1209,7 +1209,8 @@ def minimize(scen, tier, qname, cfg, data, eng, kind):
     if key in _MINI:
         return _MINI[key]
     world = scen.world()
-    pool = [(None, data)] + [(k, d) for k, d, _ in scen.datasets(tier)[:40]]
+    # canonical pool first (result independent of where the failure was first seen), the triggering data set last
+    pool = [(k, d) for k, d, _ in scen.datasets(tier)[:40]] + [(None, data)]
 
     def fails(q, c):
         if not cfg_valid(scen, c):
